@@ -150,3 +150,31 @@ Theorem C18_src_pin_common_copy_owner : pin_unchanged name_common_copy_owner.
 Proof. exact pin_common_copy_owner. Qed.
 Print Assumptions C18_src_pin_common_copy_timestamps.
 Print Assumptions C18_src_pin_common_copy_owner.
+
+(* ---- further functions on this property's path, pinned token for token as validated (dependency review after rounds 5 and 6:
+   each missed change had edited a pinned function that this property did not cite) ---- *)
+From XcpPins Require Import Pin_parfile_copy_worker Pin_parblock_dispatch_worker Pin_parblock_queue_file_blocks Pin_parblock_queue_file_range Pin_operations_copy_file Pin_parblock_copy Pin_parfile_copy Pin_main_main.
+Theorem C18_src_pin_parfile_copy_worker : pin_unchanged name_parfile_copy_worker.
+Proof. exact pin_parfile_copy_worker. Qed.
+Theorem C18_src_pin_parblock_dispatch_worker : pin_unchanged name_parblock_dispatch_worker.
+Proof. exact pin_parblock_dispatch_worker. Qed.
+Theorem C18_src_pin_parblock_queue_file_blocks : pin_unchanged name_parblock_queue_file_blocks.
+Proof. exact pin_parblock_queue_file_blocks. Qed.
+Theorem C18_src_pin_parblock_queue_file_range : pin_unchanged name_parblock_queue_file_range.
+Proof. exact pin_parblock_queue_file_range. Qed.
+Theorem C18_src_pin_operations_copy_file : pin_unchanged name_operations_copy_file.
+Proof. exact pin_operations_copy_file. Qed.
+Theorem C18_src_pin_parblock_copy : pin_unchanged name_parblock_copy.
+Proof. exact pin_parblock_copy. Qed.
+Theorem C18_src_pin_parfile_copy : pin_unchanged name_parfile_copy.
+Proof. exact pin_parfile_copy. Qed.
+Theorem C18_src_pin_main_main : pin_unchanged name_main_main.
+Proof. exact pin_main_main. Qed.
+Print Assumptions C18_src_pin_parfile_copy_worker.
+Print Assumptions C18_src_pin_parblock_dispatch_worker.
+Print Assumptions C18_src_pin_parblock_queue_file_blocks.
+Print Assumptions C18_src_pin_parblock_queue_file_range.
+Print Assumptions C18_src_pin_operations_copy_file.
+Print Assumptions C18_src_pin_parblock_copy.
+Print Assumptions C18_src_pin_parfile_copy.
+Print Assumptions C18_src_pin_main_main.
